@@ -2,6 +2,7 @@
   Line-protocol driver: one record per input line, one canonical answer line per record.
 -/
 import PasfmtModel.Model.Contracts
+import PasfmtModel.Model.Relex
 import PasfmtModel.Model.Cursor
 import PasfmtModel.Model.Parser
 import PasfmtModel.Model.IO
@@ -88,7 +89,7 @@ def showChanged (before after : List Bytes) : String :=
 def bool01 (b : Bool) : String := if b then "1" else "0"
 
 /-- the `fmt` stream: whole pipeline with the parser and wrapper outputs taken from the record -/
-def handleFmt (cfgS inpS kindsS linesS postS changedS alnumS cursorsS : String) : String :=
+def handleFmt (cfgS inpS kindsS linesS postS changedS alnumS cursorsS : String) (wf : Bool := false) : String :=
   match parseCfg cfgS, ofHex inpS, (parseList kindsS).mapM TokenType.ofRust, parseLines linesS,
         (parseList postS).mapM parseFmt, parseChanged changedS, (parseList alnumS).mapM ofHex,
         (parseList cursorsS).mapM String.toNat? with
@@ -109,10 +110,12 @@ def handleFmt (cfgS inpS kindsS linesS postS changedS alnumS cursorsS : String) 
       let ft2 := O.wrap cfg lines' ft1
       let wc := wrapFrameB ft1 ft2 && wrapContentB cfg ft1 ft2 && wrapIgnoredB ft1 ft2
       let ndOk := contentsNdB raw
+      -- C02 contract (well-formed cases only): the windowed re-scan of the output gives back the emitted tokens
+      let rx := !wf || relexB cfg.settings raw ft2
       let marksS := showList ((marks.zipIdx.filter (·.1)).map fun (_, i) => toString i)
       let pre := showList (ft1.map fun t => showFmt t.fmt)
       let prec := showChanged (raw.map (·.content)) (ft1.map (·.tok.content))
-      s!"marks={marksS}\tlv={showLines lines'}\tpre={pre}\tprec={prec}\tkr=1\twc={bool01 wc}\tnd={bool01 ndOk}\tcur={showList ((trackCursors cfg.settings raw ft2 cursors).map fun o => match o with | some n => toString n | none => "underflow")}\tout={toHex out}\tinfo_sr={bool01 (safeRunAllGo false ft2)}\tinfo_sn={bool01 (noSafetyNetGo false ft2)}\tinfo_cn={bool01 (canonAll ft2)}\tinfo_nn={bool01 (noNlAll ft2)}\tinfo_nt={bool01 (noTabAll ft2)}"
+      s!"marks={marksS}\tlv={showLines lines'}\tpre={pre}\tprec={prec}\tkr=1\twc={bool01 wc}\tnd={bool01 ndOk}\trx={bool01 rx}\tcur={showList ((trackCursors cfg.settings raw ft2 cursors).map fun o => match o with | some n => toString n | none => "underflow")}\tout={toHex out}\tinfo_sr={bool01 (safeRunAllGo false ft2)}\tinfo_sn={bool01 (noSafetyNetGo false ft2)}\tinfo_cn={bool01 (canonAll ft2)}\tinfo_nn={bool01 (noNlAll ft2)}\tinfo_nt={bool01 (noTabAll ft2)}"
   | _, _, _, _, _, _, _, _ => "bad-record"
 
 def parseParent (s : String) : Option (Option LineParent) :=
@@ -254,6 +257,7 @@ def handleLine (line : String) : String :=
       | none => "model-none"
       | some toks => showRawToks toks
   | ["fmt", cfg, inp, kinds, lines, post, changed, alnum, cursors] => handleFmt cfg inp kinds lines post changed alnum cursors
+  | ["fmt", cfg, inp, kinds, lines, post, changed, alnum, cursors, wf] => handleFmt cfg inp kinds lines post changed alnum cursors (wf == "1")
   | ["parse", kinds, passesOps] => handleParse kinds passesOps
   | ["io", mode, enc, content, header, fmtT, decT, encT] => handleIo mode enc content header fmtT decT encT
   | ["sched", workers] => handleSched workers
